@@ -1,12 +1,236 @@
-(** C26 — WIP stub *)
-From Coq Require Import List NArith.
-Import ListNotations.
-From Ont Require Import Model.Merkle Proofs.MerkleSpec Proofs.MerkleVerify.
+(** C26 — Block-root merkle tree gives verifiable inclusion and consistency proofs.
 
-Theorem c26_incl_sound_lists : forall (T : Type) (teqb : T -> T -> bool) (hc : T -> T -> T) (hempty : T),
-  (forall a b, teqb a b = true <-> a = b) ->
-  forall d (D : list T) (leaf : T) (idx : N) (proof : list T),
-    verify_leaf_hash_inclusion T teqb hc leaf idx proof (mth T hc hempty D) (N.of_nat (length D)) = VOk ->
-    collision T hc \/ leaf = nth (N.to_nat idx) D d.
-Proof. exact incl_sound_lists. Qed.
-Print Assumptions c26_incl_sound_lists.
+    Model: Model/Merkle.v (CompactMerkleTree with its hash store, MerkleVerifier), parametric in the
+    hash: [T] with a decidable equality, [hc] = hash_children, [hempty] = hash_empty.  Specification:
+    RFC 6962 [mth] / PATH ([rfc_path]) / PROOF ([rfc_proof]) over the list of leaf hashes.
+    [build ls] = the tree after AppendHash of every element of [ls] to the empty tree (memory store);
+    [tree_of t ls] = "t is in the state reached by appending ls" (also satisfied by a reloaded tree).
+
+    No collision-freedom is assumed anywhere: soundness statements conclude "the claim, or an explicit
+    pair of different inputs with the same hash_children value" ([collision]).
+
+    Bounds: tree sizes below 2^31 ([small]) wherever store positions are computed, because
+    getSubTreePos works in uint32 and the store of a tree of n leaves has 2n - popcount(n) entries;
+    the verifier theorems have no bound.
+
+    Not provable, by design of RFC 6962 (the root does not bind the tree size): "any altered size is
+    rejected" — [c26_size_not_bound] exhibits two sizes accepted with the same proof in a
+    collision-free hash algebra.  Sizes whose audit-path shape differs are covered by the oracle. *)
+From Coq Require Import List Bool NArith Arith.
+Import ListNotations.
+From Ont Require Import Lib.Bytes Lib.Sha256 Model.Merkle Gen.MerkleConsts.
+From Ont Require Import Proofs.MerkleSpec Proofs.MerkleVerify Proofs.MerkleTree Proofs.C26.
+
+Section Statements.
+  Variable T : Type.
+  Variable teqb : T -> T -> bool.
+  Variable hc : T -> T -> T.
+  Variable hempty : T.
+  Hypothesis teqb_spec : forall a b, teqb a b = true <-> a = b.
+
+  Notation mth := (mth T hc hempty).
+  Notation small := (small T).
+
+  (** 1. After any number of appended leaves the incrementally maintained root equals the root of
+      the full tree (and HashFullTree computes the same). *)
+  Theorem c26_append_root : forall ls : list T, (N.of_nat (length ls) < two32N)%N ->
+    exists t, build T hc ls = Some t /\ ct_root T hc hempty t = mth ls /\
+              ct_size T t = N.of_nat (length ls) /\
+              hash_full_tree T hc hempty ls = mth ls.
+  Proof.
+    intros ls H. destruct (append_root T hc hempty ls H) as (t & H1 & H2 & H3).
+    exists t. repeat split; try assumption. apply hash_full_tree_mth.
+  Qed.
+
+  (** 2. Every leaf's inclusion proof is the RFC path and verifies against the root of every tree
+      size containing it; consistency proofs are the RFC proof and verify between any two sizes. *)
+  Theorem c26_incl_complete : forall (d : T) (ls : list T), small ls ->
+    exists t, build T hc ls = Some t /\
+      forall m k, m < k -> k <= length ls ->
+        exists p, inclusion_proof T hc t (N.of_nat m) (N.of_nat k) = inr p /\
+                  p = rfc_path T hc hempty m (firstn k ls) /\
+                  verify_leaf_hash_inclusion T teqb hc (nth m ls d) (N.of_nat m) p
+                    (mth (firstn k ls)) (N.of_nat k) = VOk.
+  Proof.
+    intros d ls Hs. destruct (build_tree_of T teqb hc hempty teqb_spec ls Hs) as (t & Hb & Ht & Hst).
+    exists t. split; [exact Hb|]. intros m k Hm Hk.
+    exact (incl_complete T teqb hc hempty teqb_spec d t ls m k Ht Hst Hs Hm Hk).
+  Qed.
+
+  Theorem c26_cons_complete : forall (d : T) (ls : list T), small ls ->
+    exists t, build T hc ls = Some t /\
+      forall m k, 1 <= m -> m <= k -> k <= length ls ->
+        exists p, consistency_proof T hc t (N.of_nat m) (N.of_nat k) = inr p /\
+                  p = rfc_proof T hc hempty m (firstn k ls) /\
+                  verify_consistency T teqb hc hempty (N.of_nat m) (N.of_nat k)
+                    (mth (firstn m ls)) (mth (firstn k ls)) p = VOk.
+  Proof.
+    intros d ls Hs. destruct (build_tree_of T teqb hc hempty teqb_spec ls Hs) as (t & Hb & Ht & Hst).
+    exists t. split; [exact Hb|]. intros m k Hm1 Hmk Hk.
+    exact (cons_complete T teqb hc hempty teqb_spec d t ls m k Ht Hst Hs Hm1 Hmk Hk).
+  Qed.
+
+  (** 3. Soundness (no size bound): whatever leaf / index / proof is presented, acceptance against
+      the root of D with size |D| means the leaf is D[idx] and the proof is the RFC path — or a
+      collision is exhibited.  Hence an altered leaf, an altered index (unless the same leaf sits
+      there) and any altered proof element are rejected. *)
+  Theorem c26_incl_sound : forall (d : T) (D : list T) (leaf : T) (idx : N) (proof : list T),
+    verify_leaf_hash_inclusion T teqb hc leaf idx proof (mth D) (N.of_nat (length D)) = VOk ->
+    collision T hc \/ (leaf = nth (N.to_nat idx) D d /\ proof = rfc_path T hc hempty (N.to_nat idx) D).
+  Proof. exact (incl_unique_lists T teqb hc hempty teqb_spec). Qed.
+
+  (** an altered root is rejected: the root is a function of the other inputs *)
+  Theorem c26_incl_root_determined : forall leaf idx proof r1 r2 size,
+    verify_leaf_hash_inclusion T teqb hc leaf idx proof r1 size = VOk ->
+    verify_leaf_hash_inclusion T teqb hc leaf idx proof r2 size = VOk -> r1 = r2.
+  Proof. exact (incl_root_determined T teqb hc teqb_spec). Qed.
+
+  (** acceptance of a consistency proof for sizes 0 < m <= n against the root of D[0:n] means the
+      old root is the root of D[0:m] — or a collision is exhibited (this is what the two early
+      returns repaired in /repo used to break). *)
+  Theorem c26_cons_sound : forall (D : list T) (m : nat) (old_root : T) (proof : list T),
+    0 < m -> m <= length D ->
+    verify_consistency T teqb hc hempty (N.of_nat m) (N.of_nat (length D)) old_root (mth D) proof = VOk ->
+    collision T hc \/ old_root = mth (firstn m D).
+  Proof. exact (cons_sound_lists T teqb hc hempty teqb_spec). Qed.
+
+  (** the same two statements against the tree's own Root() and TreeSize() *)
+  Theorem c26_sound_against_tree : forall (d : T) (ls : list T) t, tree_of T hc t ls ->
+    (forall leaf idx proof,
+       verify_leaf_hash_inclusion T teqb hc leaf idx proof (ct_root T hc hempty t) (ct_size T t) = VOk ->
+       collision T hc \/ (leaf = nth (N.to_nat idx) ls d /\ proof = rfc_path T hc hempty (N.to_nat idx) ls)) /\
+    (forall m old_root proof, 0 < m -> m <= length ls ->
+       verify_consistency T teqb hc hempty (N.of_nat m) (ct_size T t) old_root (ct_root T hc hempty t) proof = VOk ->
+       collision T hc \/ old_root = mth (firstn m ls)).
+  Proof.
+    intros d ls t Ht. split.
+    - intros. eapply (incl_unique T teqb hc hempty teqb_spec); eassumption.
+    - intros. eapply (cons_sound T teqb hc hempty teqb_spec); eassumption.
+  Qed.
+
+  (** the generators return the RFC path / proof for every tree in the state reached by [ls] —
+      in particular for a reloaded tree (5. below): same proofs as the never-reloaded one *)
+  Theorem c26_proofs_of_any_tree : forall (ls : list T) t, tree_of T hc t ls -> ct_store T t <> None -> small ls ->
+    (forall m k, m < k -> k <= length ls ->
+       inclusion_proof T hc t (N.of_nat m) (N.of_nat k) = inr (rfc_path T hc hempty m (firstn k ls))) /\
+    (forall m k, 1 <= m -> m <= k -> k <= length ls ->
+       consistency_proof T hc t (N.of_nat m) (N.of_nat k) = inr (rfc_proof T hc hempty m (firstn k ls))).
+  Proof.
+    intros ls t Ht Hst Hs. split; intros.
+    - apply (inclusion_proof_rfc T hc hempty t ls m k); assumption.
+    - apply (consistency_proof_rfc T hc hempty t ls m k); assumption.
+  Qed.
+
+  (** 4. Store layout: the store holds exactly the post-order of the perfect subtrees, its length
+      is getStoredHashNum(size), len(hashes) = countBit(size); the generators' theorems above need
+      nothing beyond this written prefix. *)
+  Theorem c26_store_layout : forall (ls : list T) t, tree_of T hc t ls -> small ls ->
+    length (ct_hashes T t) = countBit (ct_size T t) /\
+    match ct_store T t with
+    | None => True
+    | Some s => N.of_nat (hs_cur T s) = get_stored_hash_num (ct_size T t) /\
+                firstn (hs_cur T s) (hs_data T s) = fpost T hc (fview T ls)
+    end.
+  Proof. intros ls t. exact (store_layout T teqb hc hempty teqb_spec t ls). Qed.
+
+  (** 5. Reload: reopening the hash file (possibly longer than what was committed) with the
+      persisted size and restoring (size, hashes) gives a tree in the same state — same root, and
+      by 2./3. the same proofs; appending more leaves continues as the never-reloaded tree. *)
+  Theorem c26_reload : forall (ls : list T) t (data : list T), tree_of T hc t ls -> small ls ->
+    match ct_store T t with
+    | None => True
+    | Some s => firstn (hs_cur T s) data = firstn (hs_cur T s) (hs_data T s) /\ hs_cur T s <= length data
+    end ->
+    exists st' t',
+      (ct_store T t <> None -> hs_file_open T data (ct_size T t) = Some st') /\
+      new_tree T (ct_size T t) (ct_hashes T t)
+               (match ct_store T t with None => None | Some _ => Some st' end) = Some t' /\
+      tree_of T hc t' ls /\ ct_root T hc hempty t' = ct_root T hc hempty t.
+  Proof. intros ls t data. exact (reload T teqb hc hempty teqb_spec t ls data). Qed.
+
+  Theorem c26_continue : forall (ls more : list T) t, tree_of T hc t ls -> small (ls ++ more) ->
+    exists t', append_all T hc t more = Some t' /\ tree_of T hc t' (ls ++ more).
+  Proof. intros ls more t. exact (continue_after T teqb hc hempty teqb_spec t ls more). Qed.
+End Statements.
+
+Print Assumptions c26_append_root.
+Print Assumptions c26_incl_complete.
+Print Assumptions c26_cons_complete.
+Print Assumptions c26_incl_sound.
+Print Assumptions c26_incl_root_determined.
+Print Assumptions c26_cons_sound.
+Print Assumptions c26_sound_against_tree.
+Print Assumptions c26_proofs_of_any_tree.
+Print Assumptions c26_store_layout.
+Print Assumptions c26_reload.
+Print Assumptions c26_continue.
+
+(** 6. Ties to the source (regenerated on every run into Gen/MerkleConsts.v): the hasher prefixes
+    and the empty hash; getSubTreePos / getStoredHashNum on every size of the table. *)
+Theorem c26_hasher_tied :
+  (forall d, sha_hash_leaf d = sha256 (gen_leaf_prefix :: d)) /\
+  (forall l r, sha_hash_children l r = sha256 (gen_node_prefix :: l ++ r)) /\
+  sha_hash_empty = gen_hash_empty /\
+  sha_hash_children sha_zero sha_zero = gen_hash_children_zero /\
+  sha_hash_leaf [97; 98; 99]%N = gen_hash_leaf_abc /\
+  gen_leaf_prefix <> gen_node_prefix /\ gen_uint256_size = 32.
+Proof. exact hasher_tied. Qed.
+Print Assumptions c26_hasher_tied.
+
+Theorem c26_layout_table : forall n, n <= gen_table_n ->
+  get_sub_tree_pos (N.of_nat n) = nth n gen_sub_tree_pos [] /\
+  get_stored_hash_num (N.of_nat n) = nth n gen_stored_hash_num 0%N.
+Proof. exact layout_table_forall. Qed.
+Print Assumptions c26_layout_table.
+
+(** for the SHA-256 instance a collision of hash_children on equal-length operands (the code's
+    operands are always 32 bytes) is a collision of SHA-256 itself *)
+Theorem c26_sha_collision :
+  collision bytes sha_hash_children ->
+  (exists a b c e : bytes, (a <> c \/ b <> e) /\ sha_hash_children a b = sha_hash_children c e /\
+     ~ (length a = length c)) \/
+  exists x y : bytes, x <> y /\ sha256 x = sha256 y.
+Proof. exact sha_children_collision. Qed.
+Print Assumptions c26_sha_collision.
+
+(** * A collision-free toy hash algebra: non-vacuity, and the size clause that cannot hold *)
+Definition toy_hc (a b : bytes) : bytes := (N.of_nat (length a) :: a) ++ b.
+Definition toy_leaves : list bytes := [[10]; [11]; [12]; [13]; [14]]%N.
+
+(** Non-vacuity: a concrete five-leaf tree; its proofs verify, altered ones do not. *)
+Example c26_nonvacuous :
+  exists t p q,
+    build bytes toy_hc toy_leaves = Some t /\
+    ct_root bytes toy_hc [] t = mth bytes toy_hc [] toy_leaves /\
+    inclusion_proof bytes toy_hc t 2 5 = inr p /\ length p = 3 /\
+    verify_leaf_hash_inclusion bytes bytes_eqb toy_hc [12]%N 2 p (ct_root bytes toy_hc [] t) 5 = VOk /\
+    verify_leaf_hash_inclusion bytes bytes_eqb toy_hc [99]%N 2 p (ct_root bytes toy_hc [] t) 5 <> VOk /\
+    verify_leaf_hash_inclusion bytes bytes_eqb toy_hc [12]%N 3 p (ct_root bytes toy_hc [] t) 5 <> VOk /\
+    consistency_proof bytes toy_hc t 3 5 = inr q /\
+    verify_consistency bytes bytes_eqb toy_hc [] 3 5 (mth bytes toy_hc [] (firstn 3 toy_leaves))
+      (ct_root bytes toy_hc [] t) q = VOk /\
+    verify_consistency bytes bytes_eqb toy_hc [] 3 5 (ct_root bytes toy_hc [] t)
+      (ct_root bytes toy_hc [] t) [] <> VOk.
+Proof.
+  destruct (build bytes toy_hc toy_leaves) as [t|] eqn:Eb; [|vm_compute in Eb; discriminate].
+  destruct (inclusion_proof bytes toy_hc t 2 5) as [e|p] eqn:Ep;
+    [vm_compute in Eb; inversion Eb; subst t; vm_compute in Ep; discriminate|].
+  destruct (consistency_proof bytes toy_hc t 3 5) as [e|q] eqn:Eq;
+    [vm_compute in Eb; inversion Eb; subst t; vm_compute in Eq; discriminate|].
+  exists t, p, q.
+  vm_compute in Eb. inversion Eb; subst t.
+  vm_compute in Ep. inversion Ep; subst p.
+  vm_compute in Eq. inversion Eq; subst q.
+  repeat split; try (vm_compute; reflexivity); vm_compute; discriminate.
+Qed.
+
+(** The size is not bound by the root: the same proof for leaf 0 is accepted for tree sizes 3 and 4
+    (same audit-path shape), although [toy_hc] is injective. *)
+Theorem c26_size_not_bound :
+  let D := firstn 3 toy_leaves in
+  let root := mth bytes toy_hc [] D in
+  let p := rfc_path bytes toy_hc [] 0 D in
+  verify_leaf_hash_inclusion bytes bytes_eqb toy_hc [10]%N 0 p root 3 = VOk /\
+  verify_leaf_hash_inclusion bytes bytes_eqb toy_hc [10]%N 0 p root 4 = VOk.
+Proof. vm_compute. split; reflexivity. Qed.
+Print Assumptions c26_size_not_bound.
